@@ -90,7 +90,7 @@ class C20(Base):
             "unterminated, whitespace and newline inside tags, multi-byte characters around and inside them) x all 8 flag "
             "combinations for transform_dom and x 4 for transform; token soup of <= 10 tokens over 66 tokens (markup "
             "characters, letters incl. a e o u, ready-made tags/entities, 2/3/4-byte characters of the classes word / "
-            "space / other); thorough adds all strings of <= 6 tokens over {<, >, &, ;, e, space, e-acute, newline} "
+            "space / other); long strings (9-70 items, mostly tags/entities; soup of up to 120 tokens); thorough adds all strings of <= 6 tokens over {<, >, &, ;, e, space, e-acute, newline} "
             "(300 k) with rotating flags. Non-trivial = the input has an ASCII letter and (for dom) at least one "
             "tag/entity match; distinct = distinct case line.")
     EXPLANATION = ("Theorems (parametric in any four 26-entry tables): transform never panics and is the per-character "
@@ -108,15 +108,16 @@ class C20(Base):
         n = rng.randint(1, maxlen)
         return "".join(rng.choice(TOKENS) for _ in range(n))
 
-    def markup(self, rng):
-        """text with well-formed tags/entities in chosen places"""
+    def markup(self, rng, long=False):
+        """text with well-formed tags/entities in chosen places; long: 9..70 items, most of them tags/entities (more
+        markup items than any small fixed-size buffer holds)"""
         words = ["Hello", "World", "aeou", "é", "x", "Zz", "a b", "€", "😀", "٣", " "]
         tags = ["<b>", "</b>", "<a href=\"u\">", "<br/>", "< i >", "&amp;", "&#x202a;", "&nbsp;", "<é>", "<b >", "<x y>"]
-        n = rng.randint(1, 6)
+        n = rng.choice([9, 10, 12, 16, 17, 20, 33, 40, 65, 70]) if long else rng.randint(1, 6)
         out = []
         for _ in range(n):
             r = rng.random()
-            if r < 0.45:
+            if r < (0.3 if long else 0.45):
                 out.append(rng.choice(words))
             elif r < 0.9:
                 out.append(rng.choice(tags))
@@ -139,6 +140,10 @@ class C20(Base):
             yield "pseudo dom %s %s" % (rng.choice(FLAGS), hx(self.soup(rng, 10)))
         for _ in range(1500 if quick else 50000):
             yield "pseudo dom %s %s" % (rng.choice(FLAGS), hx(self.markup(rng)))
+        for _ in range(300 if quick else 10000):
+            yield "pseudo dom %s %s" % (rng.choice(FLAGS), hx(self.markup(rng, long=True)))
+        for _ in range(100 if quick else 3000):
+            yield "pseudo dom %s %s" % (rng.choice(FLAGS), hx(self.soup(rng, 120)))
         for _ in range(800 if quick else 20000):
             yield "pseudo plain %s0 %s" % (rng.choice(["00", "01", "10", "11"]), hx(self.soup(rng, 10)))
         if not quick:
@@ -193,13 +198,19 @@ class C20(Base):
         if out != exp:
             return "output %s != reference %s" % (d["ok"], hx(exp))
         mv, nv = d.get("m", "na"), d.get("n", "na")
-        for f in (mv, nv):
+        sv, rv = d.get("s", "na"), d.get("r", "na")
+        for f in (mv, nv, sv, rv):
             if f.startswith("WRITE-DIFFERS"):
                 return "write_pattern and format_pattern disagree under set_transform: " + f[:80]
         if mv != "na" and mv != d["ok"]:
             return "through set_transform (single text element) %s != direct %s" % (mv, d["ok"])
         if nv != "na" and unhx(nv) != out.encode("utf-8") + b"|" + out.encode("utf-8"):
             return "through set_transform (two text elements) %s != direct|direct" % nv
+        if sv != "na" and (sv.startswith("err") or unhx(sv) != out.encode("utf-8") * 3):
+            return ("through set_transform, text before / inside the default variant of / after a select on a missing "
+                    "argument: %s != direct x 3" % sv)
+        if rv != "na" and (rv.startswith("err") or unhx(rv) != out.encode("utf-8") * 3):
+            return "through set_transform, text through a term reference / direct / message reference: %s != direct x 3" % rv
         return None
 
     def nontrivial(self, case, impl_obs):
